@@ -60,6 +60,11 @@ def _verdict(res, name, m, x, opts, vopts_ok, dev, clk, counts):
     return o
 
 
+def e2_positions(t):
+    from .. import e2
+    return e2.default_check_positions(t)
+
+
 def _rank(dev, x):
     return [dev[0], len(x) if isinstance(x, str) else 0, x if isinstance(x, str) else repr(x)]
 
@@ -130,12 +135,38 @@ def work(item):
         for key, val in nonstr:
             _verdict(res, name, m, val, opts, ok_for_isvalid, (1, 'nonstr:' + type(val).__name__, ''), None, counts)
             n += 1
+        # the seeds as bytes: ASCII bytes, and with a Latin-1 no-break space / an invalid UTF-8 byte inside
+        for s_, v_ in sv[:2]:
+            for b in (v_.encode('utf-8', 'replace'), (v_[:2] + '\xa0' + v_[2:]).encode('latin-1', 'replace'), v_.encode('utf-8', 'replace') + b'\x80'):
+                _verdict(res, name, m, b, opts, ok_for_isvalid, (1, 'nonstr:bytes-seed', ''), None, counts)
+                n += 1
+    # cross-class substitution followed by a repair of the check position: reaches the code behind the checksum
+    # gate with a character of another class in the payload
+    from .. import synth
+    from ..alphabet import class_of
+    for s_, v_ in sv[:2]:
+        for i, ch in enumerate(v_):
+            for c in '09AOZX':
+                if class_of(c) == class_of(ch):
+                    continue
+                t = v_[:i] + c + v_[i + 1:]
+                o = outcome(m.validate, t)
+                if o[0] == 'verr' and o[1] == 'InvalidChecksum':
+                    for ps in synth.table_check_positions(name, m, t) + e2_positions(t):
+                        if i in ps or len(ps) != 1:
+                            continue
+                        p_ = ps[0]
+                        for r in '0123456789XKAZ':
+                            if r != t[p_]:
+                                u = t[:p_] + r + t[p_ + 1:]
+                                _verdict(res, name, m, u, {}, True, (2, 'sub:%s+repair' % class_of(c), v_), None, counts)
+                                n += 1
     # clock dimension
     readers = clock.calls()
     if readers:
         menu = _clock_menu(m, sv)
         sub = [(x, dev) for x, dev in states.items() if dev[0] <= (1 if tier == 'thorough' else 0)
-               or dev[1].startswith('sub:digit') or dev[1].startswith('swap')]
+               or dev[1].startswith('sub:digit') or dev[1].startswith('swap') or dev[1].startswith('synth:date')]
         for d in menu[1:]:
             clock.set_today(d)
             for x, dev in sub:
@@ -143,6 +174,13 @@ def work(item):
                 n += 1
                 if o[0] == 'ok':
                     nontrivial += 1
+            # clock answer x single non-default option, on the seeds and their date-carrying variants
+            for opts in optsets[1:]:
+                okiv = all(k in iv_opts for k in opts)
+                for x, dev in sub:
+                    if dev[0] == 0 or dev[1].startswith('synth:date'):
+                        _verdict(res, name, m, x, opts, okiv, (dev[0] + 2, 'clock+option+' + dev[1], dev[2]), d, counts)
+                        n += 1
         clock.set_today(None)
         res['extra']['clock_readers'] = {name: sorted(readers)}
         res['extra']['clock_answers'] = {name: len(menu)}
